@@ -612,3 +612,15 @@ macro_rules! quantizer_search_small {
 }
 quantizer_search_small!(quantizer_search_small_u8, u8, 14);
 quantizer_search_small!(quantizer_search_small_i8, i8, 14);
+
+/// C18 (diagnostics, sanity contract only): entropy_base2 of a model is a finite number in [0, P]
+/// also at PRECISION == Probability::BITS (the exact value involves log2 and is not decided here).
+#[cfg_attr(kani, kani::proof)]
+#[cfg_attr(kani, kani::unwind(6))]
+pub fn entropy_is_finite_u8_p8() {
+    let range: usize = any(); assume(range >= 2 && range <= 3);
+    let m = UniformModel::<u8, 8>::new(range);
+    let h: f64 = m.entropy_base2::<f64>();
+    assert!(h.is_finite(), "C18: entropy_base2 is not finite");
+    assert!(h >= -0.001 && h <= 8.001, "C18: entropy_base2 outside [0, PRECISION]");
+}
